@@ -1,8 +1,10 @@
+mod cbrun;
 mod config;
 mod dec;
 mod fifo;
 mod gen;
 mod mcp;
+mod midas;
 mod pack;
 mod util;
 
@@ -58,6 +60,13 @@ fn main() {
             run.finish();
         }
         "cbsweep" => fifo::sweep(args.req("out"), args.get("tier") == Some("thorough")),
+        "cbrun" => {
+            let mut run = Runner::new(&args);
+            let bin = std::path::PathBuf::from(args.req("bin"));
+            let work = std::path::PathBuf::from(args.req("work"));
+            cbrun::run(&mut run, &bin, &work, args.get("in"), args.num("seed", 1), args.num("n", 50));
+            run.finish();
+        }
         "config" => {
             let v = config::config();
             std::fs::write(args.req("out"), serde_json::to_string(&v).unwrap()).unwrap();
